@@ -1,0 +1,52 @@
+//go:build verif
+
+package jsonapi
+
+// Contracts for SoftResource (C17, C18, C19, C05).
+//
+// Representation: the fields of a soft resource are those of *sr.Type; values
+// live in sr.data under the field's name. check() lazily creates the type, its
+// maps and the data map, and fills in the zero value of every field that has no
+// entry. Entries of sr.data that are not fields are invisible through the
+// Resource interface and are not specified.
+
+//@ spec srTypeWf(sr *SoftResource) = sr.Type != nil ==> attrsWf(sr.Type.Attrs) && relsWf(sr.Type.Rels)
+//@ spec srReady(sr *SoftResource) = sr.Type != nil && sr.Type.Attrs != nil && sr.Type.Rels != nil && sr.data != nil
+//@ spec srIsField(sr *SoftResource, k string) = k in sr.Type.Attrs || k in sr.Type.Rels
+
+// Typing of stored values (what C05 and the Resource interface promise).
+//@ spec valTyped(v any, a Attr) = dyn(v) == goTag(a.Type, a.Nullable)
+//@ spec relTyped(v any, r Rel) = dyn(v) == ite(r.ToOne, type[string], type[[]string])
+//@ spec srTyped(sr *SoftResource) = (forall k string :: k in sr.Type.Attrs && k in sr.data ==> valTyped(sr.data[k], sr.Type.Attrs[k])) && (forall k string :: k in sr.Type.Rels && k in sr.data ==> relTyped(sr.data[k], sr.Type.Rels[k]))
+
+// Zero values per kind: nil for nullable kinds, otherwise the kind's zero.
+//@ spec isZeroVal(v any, t int, nullable bool) = dyn(v) == goTag(t, nullable) && (nullable ==> num(v) == 0)
+//@   | && (!nullable && t == AttrTypeString ==> str(v) == "")
+//@   | && (!nullable && AttrTypeInt <= t && t <= AttrTypeUint64 ==> num(v) == 0)
+//@   | && (!nullable && t == AttrTypeBool ==> num(v) == 0)
+//@   | && (!nullable && t == AttrTypeBytes ==> len(sl(v, type[[]byte])) == 0)
+//@   | && (!nullable && t == AttrTypeTime ==> unbox(v, type[time.Time]) == zero(type[time.Time]))
+
+//@ func GetZeroValue
+//@ props C17 C05
+//@ modifies new[time.Time], new[uint8]
+//@ ensures zero: validKind(t) ==> isZeroVal(result, t, nullable)
+//@ ensures invalid: !validKind(t) ==> result == nil
+
+//@ func SoftResource.fields
+//@ flag absolute-quantifiers
+//@ props C17
+//@ requires ready: sr != nil && sr.Type != nil
+//@ requires wf: srTypeWf(sr)
+//@ modifies new[string]
+//@ ensures fresh: fresh(result)
+//@ ensures attrs: forall k string :: k in sr.Type.Attrs ==> (exists j int :: 0 <= j && j < len(result) && result[j] == k)
+//@ ensures rels: forall k string :: k in sr.Type.Rels ==> (exists j int :: 0 <= j && j < len(result) && result[j] == k)
+//@ ensures only-fields: forall j int :: 0 <= j && j < len(result) ==> srIsField(sr, result[j])
+//@ loop 0 invariant fresh: fresh(fields) && len(fields) >= 0 && unchanged(heap[string])
+//@ loop 0 invariant attrs-so-far: forall k string :: visited(k) ==> (exists j int :: 0 <= j && j < len(fields) && fields[j] == k)
+//@ loop 0 invariant only-attrs: forall j int :: 0 <= j && j < len(fields) ==> fields[j] in sr.Type.Attrs
+//@ loop 1 invariant fresh: fresh(fields) && len(fields) >= 0 && unchanged(heap[string])
+//@ loop 1 invariant attrs: forall k string :: k in sr.Type.Attrs ==> (exists j int :: 0 <= j && j < len(fields) && fields[j] == k)
+//@ loop 1 invariant rels-so-far: forall k string :: visited(k) ==> (exists j int :: 0 <= j && j < len(fields) && fields[j] == k)
+//@ loop 1 invariant only-fields: forall j int :: 0 <= j && j < len(fields) ==> srIsField(sr, fields[j])
